@@ -11,7 +11,7 @@ RULE = ("every case of each listed space is executed on nearest_neighbor and sym
         "set is non-empty; distinct = distinct case tuples (digest-sharded)")
 ASSUMPTIONS = ["strings longer than the stated bounds / alphabets larger than 4 letters are covered only through the CDR3 one-edit/two-edit ball families",
                "rapidfuzz is exercised, not trusted: every reported d is compared with the reference"]
-REQUIRED_CLASSES = {"all": ["size-boundary-family", "non-ascii-alphabet", "needs-indel", "has-empty-string", "duplicate-at-distance-0", "shorter-than-k", "homopolymer"]}
+REQUIRED_CLASSES = {"all": ["container-reused-with-new-contents", "size-boundary-family", "non-ascii-alphabet", "needs-indel", "has-empty-string", "duplicate-at-distance-0", "shorter-than-k", "homopolymer"]}
 MIN_OUTCOMES = 10
 
 CDR3_SEEDS = ("CASSLGQAYEQYF", "CAVRDSNYQLIW", "CASSPTGGDTQYF", "CAS")
@@ -38,7 +38,9 @@ def _series_engines():
         return pyrepseq.symdel(pd.Series(list(seqs), index=range(100, 100 + len(seqs))), k)
 
     def as_array(seqs, k):
-        return pyrepseq.symdel(np.array(list(seqs)), k)
+        # fixed-width NumPy strings cannot hold a trailing NUL: such collections are boxed as object arrays (the harness must not alter the input)
+        arr = np.array(list(seqs), dtype=object) if any(s.endswith("\x00") for s in seqs) else np.array(list(seqs))
+        return pyrepseq.symdel(arr, k)
     return (("nearest_neighbor[Series,permuted-labels]", as_perm_series), ("symdel[Series,shifted-labels]", as_shifted_series), ("symdel[ndarray]", as_array))
 
 
@@ -68,6 +70,12 @@ def spaces(tier):
         for k in (1, 2, 3):
             yield ("allpairs", "A\u03b1\u00e9", 4, k, "fwd")
             yield ("allpairs", "\u03b1\u4e2d", 5, k, "rev")
+            yield ("allpairs", "A\x00", 4, k, "fwd")       # NUL is a legal character; fixed-width NumPy strings drop trailing NULs
+
+    def gen_reuse():
+        U = E.universe("AC", 2)
+        for a in E.lists(U, 3, minlen=2):
+            yield ("reuse", a)
 
     def gen_family():
         for si in range(len(CDR3_SEEDS)):
@@ -82,6 +90,7 @@ def spaces(tier):
         Space("all-pairs-of-universe", gen_allpairs, "whole universe U(alphabet,L) as one list, fwd and reversed order: %s x k in 1..4, k=L+1" % uni, per_case=True),
         Space("size-boundary-and-non-ascii", gen_size, "collections of 257, 1025 and 65560 strings whose positions next to 0, 256, 1024, 65536 and the end hold a clonal family (fillers mutually >= 2 edits apart); universes over multi-byte alphabets {A, alpha, e-acute} and {alpha, CJK}", per_case=True),
         Space("all-lists", gen_lists, "all ordered lists with repetition: Lists(U(AC,2),3) [quick] / Lists(U(AC,2),4)+Lists(U(AC,3),3) [thorough] x k in 1..3"),
+        Space("same-container-new-contents", gen_reuse, "one list / ndarray object searched, overwritten in place with every other list of the same length over U(AC,2) (lengths 2..3) and searched again: the second answer must be that of the new contents", shards=32),
         Space("cdr3-edit-ball-families", gen_family, "complete one-edit ball over the 20 amino acids (thorough: + two-edit ball over ACSG) around %d CDR3 seeds, k in 1..2(3)" % len(CDR3_SEEDS), per_case=True),
     ]
 
@@ -116,7 +125,38 @@ def build(case):
     raise HarnessError("unknown case %r" % (case,))
 
 
+def _check_reuse(acc, case):
+    """the caller owns its container: changing it in place between two calls must be reflected by the second call"""
+    import numpy as np
+    import pyrepseq
+    a = case[1]
+    n = len(a)
+    U = E.universe("AC", 2)
+    for k in (1, 2):
+        for cname in ("list", "ndarray"):
+            for fn_name in ("nearest_neighbor", "symdel"):
+                fn = getattr(pyrepseq, fn_name)
+                for b in itertools.product(U, repeat=n):
+                    if b == a:
+                        continue
+                    box = list(a) if cname == "list" else np.array(a, dtype="<U2")
+                    r1 = acc.call(fn, box, k)
+                    box[:] = list(b)
+                    r2 = acc.call(fn, box, k)
+                    acc.cls("container-reused-with-new-contents")
+                    e1, e2 = neighbors_within(list(a), k), neighbors_within(list(b), k)
+                    bad = diagnose(r1, e1) or diagnose(r2, e2)
+                    if bad is not None:
+                        acc.fail("%s/levenshtein/same-container-new-contents/%s" % (fn_name, bad[0]), ("reuse1", a, b, k, cname, fn_name), sorted(e2), digest(r2), note="first contents %r, then %r in the same %s object" % (a, b, cname))
+                        return
+                    acc.ok((fn_name, k, digest(r2)), nontrivial=bool(e2))
+
+
 def check_case(case, acc):
+    if case[0] == "reuse":
+        return _check_reuse(acc, case)
+    if case[0] == "reuse1":
+        return _check_reuse(acc, ("reuse", case[1]))
     seqs, k = build(case)
     expected = neighbors_within(seqs, k)
     small = case[0] == "list"
